@@ -1,8 +1,10 @@
 package props
 
 import (
+	"chgosim/refproto"
 	"context"
 	"fmt"
+	"github.com/ClickHouse/ch-go/proto"
 	"regexp"
 	"sort"
 	"strings"
@@ -74,6 +76,22 @@ func runRaceQuery(t *testing.T, c *choice.Stream, r *Result, opt RunOpt) {
 			cf.ReadTimeout = 0 // the disturbances here are placed by decision count, which needs the client's timers to keep decisions coming
 		}
 		sc := drawQueryScenario(c, cf)
+		if c.Bool("ext", 1, 3) {
+			// external data, with the table name given or left to the default: one
+			// more block, and one more field of the query, for the sender to handle
+			// while the receiver is already at work
+			var col proto.ColUInt64
+			for i := 0; i < c.Range("ext.rows", 0, 3); i++ {
+				col.Append(uint64(i))
+			}
+			sc.query.ExternalData = []proto.InputColumn{{Name: "e", Data: &col}}
+			if c.Bool("ext.table", 1, 2) {
+				sc.query.ExternalTable = "ext_tbl"
+			}
+			ns := append([]simnet.Step{}, sc.script[:sc.afterHandshake+1]...)
+			ns = append(ns, simnet.Step{Label: "ext-data", OnPacket: func(*refproto.ClientPacket) []byte { return nil }})
+			sc.script = append(ns, sc.script[sc.afterHandshake+1:]...)
+		}
 		e.Sim.DrawStrategy()
 		e.Sim.StallProb = 0
 		e.W.DeliverMode = c.Weighted("deliver", 4, 1, 3)
